@@ -45,6 +45,7 @@ type job struct {
 	Case   rescorr.Case `json:"case"`
 	Repeat int          `json:"repeat"`
 	Perms  [][]int      `json:"perms"`
+	Cli    bool         `json:"cli,omitempty"` // also report what the command's tree formatter would read
 }
 
 type runOut struct {
@@ -52,6 +53,8 @@ type runOut struct {
 	Dump     []string `json:"dump"`
 	Ext      []string `json:"ext,omitempty"`
 	Raw      []string `json:"raw,omitempty"`
+	// CliWire: what tree.go reads of the entries the command would print (first run only).
+	CliWire string `json:"cli_wire,omitempty"`
 }
 
 type variant struct {
@@ -100,6 +103,67 @@ func identityRecords(ms *yang.Modules) []string {
 	return out
 }
 
+// cliWire renders the entries `goyang` would hand to its formatter (one per module name: the
+// module the bare name is bound to; in name order) in the wire format of drv_errsort's `tree`
+// op. Children are written in the order the map hands them out.
+func cliWire(ms *yang.Modules) string {
+	names := map[string]bool{}
+	for _, m := range ms.Modules {
+		names[m.Name] = true
+	}
+	var sb strings.Builder
+	sorted := lib.SortedKeys(names)
+	fmt.Fprintf(&sb, "%d", len(sorted))
+	var walk func(e *yang.Entry)
+	b := func(x bool) string {
+		if x {
+			return " 1"
+		}
+		return " 0"
+	}
+	walk = func(e *yang.Entry) {
+		shown := e.Name
+		if e.Prefix != nil {
+			shown = e.Prefix.Name + ":" + e.Name
+		}
+		fmt.Fprintf(&sb, " N %s %s %s %d", lib.HexS(e.Name), lib.HexS(shown), lib.HexS(e.Description), len(e.Exts))
+		for _, x := range e.Exts {
+			fmt.Fprintf(&sb, " %s %s", lib.HexS(x.Kind()), lib.HexS(x.NName()))
+		}
+		sb.WriteString(b(e.RPC != nil) + b(e.ReadOnly()))
+		if e.Type != nil {
+			sb.WriteString(" " + lib.HexS(e.Type.Root.Name))
+		} else {
+			sb.WriteString(" ~")
+		}
+		sb.WriteString(b(e.Dir != nil) + b(e.ListAttr != nil) + " " + lib.HexS(e.Key))
+		var in, out *yang.Entry
+		if e.RPC != nil {
+			in, out = e.RPC.Input, e.RPC.Output
+		}
+		cnt := func(x *yang.Entry) int {
+			if x != nil {
+				return 1
+			}
+			return 0
+		}
+		fmt.Fprintf(&sb, " %d %d %d", cnt(in), cnt(out), len(e.Dir))
+		if in != nil {
+			walk(in)
+		}
+		if out != nil {
+			walk(out)
+		}
+		for _, c := range e.Dir {
+			walk(c)
+		}
+	}
+	for _, n := range sorted {
+		walk(yang.ToEntry(ms.Modules[n]))
+	}
+	return sb.String()
+}
+
 func runOnce(c rescorr.Case, order []int) runOut {
 	var out runOut
 	ms := yang.NewModules()
@@ -118,9 +182,14 @@ func runOnce(c rescorr.Case, order []int) runOut {
 	}
 	if len(errs) == 0 {
 		out.Ext = identityRecords(ms)
+		if wantCli {
+			out.CliWire = cliWire(ms)
+		}
 	}
 	return out
 }
+
+var wantCli bool
 
 func identity(n int) []int {
 	o := make([]int, n)
@@ -133,7 +202,9 @@ func identity(n int) []int {
 func runJob(j job) jobOut {
 	var res jobOut
 	base := identity(len(j.Case.Names))
+	wantCli = j.Cli
 	res.First = runOnce(j.Case, base)
+	wantCli = false
 	res.Runs = 1
 	k0 := res.First.key()
 	try := func(desc string, order []int) {
@@ -478,7 +549,7 @@ func runCli(bin, dir string, args []string) cliOut {
 
 // cliCase runs the command R times per format on the files of c (argument order permuted when
 // every file loads) and returns the first pair of differing outputs, if any.
-func cliCase(bin string, idx int, c rescorr.Case, permute bool, R int, r *rand.Rand) (a, b *cliOut, runs int) {
+func cliCase(bin string, idx int, c rescorr.Case, permute bool, R int, r *rand.Rand) (a, b *cliOut, runs int, tree *cliOut) {
 	dir := filepath.Join(*workDir, "cases", strconv.Itoa(idx))
 	os.RemoveAll(dir)
 	os.MkdirAll(dir, 0o755)
@@ -502,14 +573,17 @@ func cliCase(bin string, idx int, c rescorr.Case, permute bool, R int, r *rand.R
 			runs++
 			if first == nil {
 				first = &o
+				if tree == nil {
+					tree = first
+				}
 				continue
 			}
 			if o.key() != first.key() {
-				return first, &o, runs
+				return first, &o, runs, tree
 			}
 		}
 	}
-	return nil, nil, runs
+	return nil, nil, runs, tree
 }
 
 // ---------- main ----------
@@ -592,8 +666,8 @@ func main() {
 	n, R, sample := 4000, 8, 24
 	nCli, Rcli := 600, 8
 	if f.Thorough() {
-		n, R, sample = 50000, 64, 200
-		nCli, Rcli = 4000, 64
+		n, R, sample = 20000, 64, 200
+		nCli, Rcli = 2500, 64
 	}
 	if *nSets > 0 {
 		n = *nSets
@@ -620,6 +694,13 @@ func main() {
 		}
 		jobs = append(jobs, job{Case: c, Repeat: R, Perms: perms(r, len(c.Names), sample)})
 		feats = append(feats, ft)
+	}
+	step := 1
+	if n > nCli {
+		step = n / nCli
+	}
+	for i := 0; i < n; i += step {
+		jobs[i].Cli = true
 	}
 	outs, crashes := runJobs(jobs, f)
 
@@ -740,10 +821,7 @@ func main() {
 	var mu sync.Mutex
 	var wg sync.WaitGroup
 	sem := make(chan struct{}, f.Procs)
-	step := 1
-	if n > nCli {
-		step = n / nCli
-	}
+	treeOut := make([]*cliOut, n)
 	for i := 0; i < n; i += step {
 		if crashes[i] != "" {
 			continue
@@ -754,10 +832,11 @@ func main() {
 			defer wg.Done()
 			defer func() { <-sem }()
 			c := jobs[i].Case
-			a, b, runs := cliCase(bin, i, c, outs[i].First.ParseErr == "", Rcli, f.Rand(3_000_000+i))
+			a, b, runs, tree := cliCase(bin, i, c, outs[i].First.ParseErr == "", Rcli, f.Rand(3_000_000+i))
 			mu.Lock()
 			cliRuns += int64(runs)
 			cliSets++
+			treeOut[i] = tree
 			mu.Unlock()
 			if a != nil {
 				res.AddDisagreement(lib.Disagreement{Kind: "spec", Input: c, Go: map[string]any{"run_1": a, "run_2": b}, SpecVerdict: "violates",
@@ -767,6 +846,31 @@ func main() {
 		}(i)
 	}
 	wg.Wait()
+	// the tree formatter against Model.Cli: what the command printed must be the model's rendering
+	// of what the library run saw
+	var treeReqs []string
+	var treeIdx []int
+	for i := 0; i < n; i += step {
+		if treeOut[i] != nil && crashes[i] == "" && outs[i].First.CliWire != "" {
+			treeReqs = append(treeReqs, "tree "+outs[i].First.CliWire)
+			treeIdx = append(treeIdx, i)
+		}
+	}
+	ansTree, err := lib.ParBatch(errsortDriver(f), treeReqs, f.Procs)
+	if err != nil {
+		lib.Fatal("drv_errsort: %v", err)
+	}
+	var treesCompared int64
+	for k, i := range treeIdx {
+		want, derr := lib.UnHex(ansTree[k])
+		t := treeOut[i]
+		if derr != nil || t.Exit != 0 || string(want) != t.Stdout {
+			res.AddDisagreement(lib.Disagreement{Kind: "correspondence", Input: jobs[i].Case, Go: t, Model: string(want), SpecVerdict: "",
+				What: "goyang --format tree prints something else than the formatter model renders for the same trees", Replay: replay{Mode: "cli", Case: jobs[i].Case}})
+		}
+		treesCompared++
+	}
+	res.Distribution["cli_tree_outputs_equal_to_model_rendering"] = treesCompared
 
 	res.Evaluations = totalRuns + cliRuns + lists
 	res.DistinctNontrivial = distinct.Len()
@@ -847,7 +951,7 @@ func doReplay(f *lib.Flags) {
 		if err != nil {
 			lib.Fatal("%v", err)
 		}
-		a, b, runs := cliCase(bin, 0, rp.Case, true, 64, rand.New(rand.NewSource(1)))
+		a, b, runs, _ := cliCase(bin, 0, rp.Case, true, 64, rand.New(rand.NewSource(1)))
 		fmt.Printf("%d runs of the goyang command\n", runs)
 		if a != nil {
 			fmt.Printf("DIFFERENT:\n--- %v (exit %d)\n%s%s--- %v (exit %d)\n%s%s", a.Args, a.Exit, a.Stdout, a.Stderr, b.Args, b.Exit, b.Stdout, b.Stderr)
